@@ -8,6 +8,7 @@ CONSTANTS
   MaxInv = 3
   RecordBefore = TRUE
   GuardNoInput = TRUE
+  Foreigns = TRUE
 INVARIANTS TypeOK FullOnlyFromSuccess SkipMeansUpToDate SkipComplete NoInputNoRecord
 PROPERTIES RecIndependent
 CHECK_DEADLOCK FALSE
